@@ -6,7 +6,7 @@ ASSUME = [
     'raft driver model: entries are stored in the raft log before they are applied; a restart restores the newest snapshot (if any) and applies every entry of the durable log above its index',
     'histories x every position x every session role present at that position (registered, operator; unregistered and services as negative cases) x encoding (protobuf, JSON) x snapshot placement (none, before the crash, after the restart without folding anything, after the restart folding the whole log including the marked entry)',
 ]
-RULE = ('cases = history x crash position x role x encoding x snapshot placement; per case up to three child processes (crash run, restart, second restart); '
+RULE = ('cases = history x crash position x role x encoding x client message id (above or below every earlier id of the session) x snapshot placement; per case up to three child processes (crash run, restart, second restart); '
         'oracle: exit status, durable raft log (only the crashing entry changed, to type message-of-death, identity preserved), state/outputs/marker after each restart == replay that skips exactly that entry, a further entry applies normally')
 
 def prebuild():
